@@ -1442,7 +1442,10 @@ func NewPointFromBytes(b []byte) (Point, error) {
 				return nil, fmt.Errorf("unable to unmarshal field %s: %s", string(iter.FieldKey()), err)
 			}
 		case String:
-			// Skip since this won't return an error
+			// A string value must be enclosed in double quotes.
+			if v := p.it.valueBuf; len(v) < 2 || v[len(v)-1] != '"' {
+				return nil, fmt.Errorf("unable to unmarshal field %s: invalid string value", string(iter.FieldKey()))
+			}
 		case Boolean:
 			_, err := iter.BooleanValue()
 			if err != nil {
@@ -2327,6 +2330,11 @@ func (p *point) Type() FieldType {
 
 // StringValue returns the string value of the current field.
 func (p *point) StringValue() string {
+	// A string value is at least its two quotes. NewPointFromBytes rejects anything
+	// shorter, but the iterator can be positioned on arbitrary bytes.
+	if len(p.it.valueBuf) < 2 {
+		return ""
+	}
 	return unescapeStringField(string(p.it.valueBuf[1 : len(p.it.valueBuf)-1]))
 }
 
